@@ -201,6 +201,12 @@ func manyPartLocs(parts int) (L int, locs []gts.Location) {
 		gts.Join(cp(asc)...), gts.Order(cp(asc)...), gts.Complemented{Location: gts.Join(cp(asc)...)},
 		gts.Join(desc...), gts.Join(alt...), gts.Join(flagged...), gts.Complemented{Location: gts.Order(flagged...)},
 	}
+	// forward parts followed by a run of complement-strand parts, and the other way round (a trans-spliced feature):
+	// written as the literal normal form, join(f1,..,complement(join(..))), so that the value does not depend on Join
+	if h := len(asc) / 3; h >= 1 && len(asc)-h >= 2 {
+		run := gts.Complemented{Location: gts.Joined(cp(asc[h:]))}
+		locs = append(locs, gts.Joined(append(cp(asc[:h]), run)), gts.Joined(append([]gts.Location{gts.Complemented{Location: gts.Joined(cp(asc[:len(asc)-h]))}}, cp(asc[len(asc)-h:])...)))
+	}
 	return L, locs
 }
 
